@@ -70,6 +70,10 @@ def gen(rng, n_cases, algos=None, gens=(2, 5)):
             cfg["warm"] = ["same", "wide"][rng.randint(2)]
             cfg["twin"] = bool(algo == "de" and rng.randint(3) != 0)
         # a degenerate generation: every user-made infill is a clone of its target (nothing can be replaced, every pair ties)
+        # pymoo's AdaptiveEpsilonConstraintHandling in miniature: one configuration shared by all individuals whose feasibility
+        # tolerance is relaxed only while the algorithm infills / advances (oracles judge the state with the tolerance back at 0;
+        # the step model is not consulted on such runs)
+        cfg["eps_advance"] = float(rng.choice([0.05, 0.5])) if (algo == "de" and n_ieq and not cfg["warm"] and rng.randint(3) == 0) else 0.0
         cfg["clones"] = bool(cfg["tell_only"] and rng.randint(3) == 0)
         if cfg["twin"]:
             cfg["tell_only"] = int(min(cfg["n_gen"], 2 + rng.randint(0, 2)))
@@ -109,6 +113,8 @@ def make_algorithm(c, prob, sampling=None):
     if sampling is not None:
         kw["sampling"] = sampling
     a = c["algo"]
+    if c.get("ctor_seed") is not None and a in ("de", "nsde", "gde3", "nsder"):
+        kw["seed"] = int(c["ctor_seed"])         # the seed handed to the constructor (pymoo's Algorithm keyword)
     if not c.get("adv_init", True) and a in ("de", "nsde", "gde3", "nsder"):
         kw["advance_after_initial_infill"] = False
     if c.get("evalmode") == "skipfalse" and a in ("de", "nsde", "gde3", "nsder"):
@@ -198,6 +204,11 @@ def run(case, replay=None):
     saved_cfg = pci.Individual.__dict__.get("default_config")
     algo2 = None
     try:
+        shared_cfg = None
+        if c.get("eps_advance"):
+            shared_cfg = pci.default_config()
+            shared_cfg["cache"] = False
+            pci.Individual.default_config = staticmethod(lambda: shared_cfg)
         if c.get("cv_eps"):
             base_cfg, eps_ = pci.default_config, float(c["cv_eps"])
 
@@ -296,7 +307,13 @@ def run(case, replay=None):
                     Xn = Xp.copy()
                 infills = Population.new("X", Xn)
             else:
-                infills = algo.ask()
+                if shared_cfg is not None:
+                    shared_cfg["cv_eps"] = float(c["eps_advance"])
+                try:
+                    infills = algo.ask()
+                finally:
+                    if shared_cfg is not None:
+                        shared_cfg["cv_eps"] = 0.0
             n_asked = len(infills)
             x_asked = np.array(infills.get("X"), dtype=float, copy=True)
             manual = c.get("evalmode") == "manual" and c["algo"] not in ("ga", "ea-dex")
@@ -309,8 +326,14 @@ def run(case, replay=None):
                 algo.evaluator.eval(prob, infills)
             n_eval1 = algo.evaluator.n_eval
             off = snapshot(infills, book)
-            with Recorder("record") as R:
-                algo.tell(infills=infills)
+            if shared_cfg is not None:
+                shared_cfg["cv_eps"] = float(c["eps_advance"])
+            try:
+                with Recorder("record") as R:
+                    algo.tell(infills=infills)
+            finally:
+                if shared_cfg is not None:
+                    shared_cfg["cv_eps"] = 0.0
             g += 1
             is_init = before is None
             if is_init:
@@ -336,6 +359,8 @@ def run(case, replay=None):
                     rec.tags.add(tag_ + str(c[key_]))
             if c.get("cv_eps"):
                 rec.tags.add("cv_eps>0")
+            if c.get("eps_advance"):
+                rec.tags.add("tolerance-relaxed-during-advance")
             if algo2 is not None:
                 rec.tags.add("twin-on-shared-individuals")
             if tell_only:
@@ -409,6 +434,8 @@ def _indm(s):
 
 def encode(rec):
     c = rec.cfg
+    if c.get("eps_advance"):
+        raise ValueError("skipped")     # decisions taken under a tolerance that is gone when the state is observed: oracles only
     if c.get("special"):
         raise ValueError("skipped")     # non-finite objective values: NumPy's crowding of such fronts is NaN-ridden and not modelled
     pop, off = rec.inp["pop"], rec.inp["off"]
@@ -648,7 +675,7 @@ def oracle_C08(rec):
 def oracle_C02(rec):
     if rec.err is not None:
         return ["run raised: " + rec.err]
-    if rec.cfg["algo"] != "de":
+    if rec.cfg["algo"] != "de" or rec.cfg.get("eps_advance"):
         return []
     if rec.cfg.get("init"):
         after = rec.out["after"]
